@@ -54,6 +54,9 @@ def cases(tier, seed):
                    hold=rnd.choice(['until-release', 'until-release', 'no']),
                    one_write=rnd.random() < 0.5, nrq=rnd.choice([1, 1, 2]),
                    first=rnd.random() < 0.5, seed=seed * 17 + i)
+    for i in range(12 if tier == 'quick' else 300):
+        yield dict(kind='exit-normal-release-unanswered', first=rnd.random() < 0.5,
+                   tmo=rnd.choice([1.0, 5.0, 20.0]), seed=seed * 19 + i)
     points = ['before', 'between', 'during']
     m = 3000 if tier == 'quick' else 100000
     for i in range(m):
@@ -210,6 +213,62 @@ def run_case(case):
             elif (e.source, e.reason_diag) != (src, rsn):
                 v('abort-fields-not-preserved', 'peer sent (%d,%d) surfaced %r' % (
                     src, rsn, (e.source, e.reason_diag)))
+            return _fin(world, viol, case, wire)
+        if kind == 'exit-normal-release-unanswered':
+            # the user leaves normally, the peer never answers the A-RELEASE-RQ: the release
+            # step fails (time-out), i.e. the association is left through an error - the peer
+            # must be told by an A-ABORT and nothing may be left behind
+            class Acc3(peers.ScriptedAcceptor):
+                def serve(self):
+                    while True:
+                        p = self.read_pdu(timeout=500.0)
+                        if p is None or p == 'timeout':
+                            self.ended = self.ended or 'eof'
+                            self.close()
+                            return
+                        if p['kind'] == 'P-DATA-TF':
+                            for m in self.feed_pdata(p):
+                                self.send_message(m['pcid'], {
+                                    0x0002: rc.VERIFICATION, 0x0100: 0x8030,
+                                    0x0120: m['fields'].get(0x0110), 0x0800: 0x0101, 0x0900: 0})
+                        elif p['kind'] == 'A-ABORT':
+                            self.ended = 'aborted'
+                            self.close()
+                            return
+                        # A-RELEASE-RQ: ignored on purpose
+
+            def tap3(s_, b):
+                wire.append(('C>S', b))
+            world.serve_peer(ADDR, lambda sock: (setattr(sock.peer, 'on_send', tap3),
+                                                 Acc3(world.sim, sock))[1])
+            cli.timeout = case['tmo']
+            got = {}
+
+            def user4():
+                try:
+                    with cli.request_association(remote) as assoc:
+                        if case['first']:
+                            got['st'] = int(assoc.get_scu(rc.VERIFICATION)(1))
+                    got['left'] = True
+                except Exception as e:  # pylint: disable=broad-except
+                    got['exc'] = e
+            world.spawn(user4, 'user')
+            world.run(tmax=400)
+            world.drain(35.0)
+            asceprovider.Association._get_dul_message = orig
+            c2s = _pdus([b for d, b in wire if d == 'C>S'])
+            kinds = [p['kind'] for p in c2s]
+            if 'A-RELEASE-RQ' not in kinds:
+                v('normal-exit-did-not-release', 'client sent %r' % kinds[-5:])
+            elif got.get('exc') is not None and 'A-ABORT' not in kinds[kinds.index('A-RELEASE-RQ'):]:
+                v('exceptional-exit-did-not-abort point=release-unanswered',
+                  'context manager raised %r; client sent %r; peer ended %r' % (
+                      got.get('exc'), kinds[-4:], [p.ended for p in world.peers]))
+            if got.get('exc') is not None and not isinstance(got['exc'], exceptions.NetDICOMError):
+                v('release-failure-not-a-library-error', repr(got['exc']))
+            live = [t.name for t in world.sim.tasks if t.role == 'dul' and not t.done]
+            if live:
+                v('provider-left-running point=release-unanswered', repr(live))
             return _fin(world, viol, case, wire)
         if kind == 'exit-normal-response-in-flight':
             # the user sends requests, does not wait for the responses and leaves the context
